@@ -56,7 +56,20 @@ def compare(rep, rule, key, f, forms, want, what):
                   % (what, d, want))
 
 
+def rule_current_preprocessor(repo, rep):
+  # decisions on index tuples are taken on the points of the preprocessor
+  # given to this estimator now: fit rebuilds the wrapper every time
+  # (typestate rule of C17, pair / triplet / quadruplet classifiers only)
+  from . import c17
+  before = len(rep.obs)
+  c17.rule_history(repo, rep)
+  names = ('ITML', 'MMC', 'SDML', 'SCML', 'LSML')
+  rep.obs[before:] = [o for o in rep.obs[before:]
+                      if o['construct'].startswith(names)]
+
+
 def check(repo, rep, tier):
+  rule_current_preprocessor(repo, rep)
   R = 'R-FORM:decision-rule'
   rep.rule(R, 'decision_function / predict / score of the tuple classifiers '
            'normalise (comparison operators, slot indices, signs kept exact) '
